@@ -775,6 +775,19 @@ class FnBounds:
         nonneg_keys = set()
         removed = assume_at(self.cx, self.fn, self.cfg, site_bb)
         cfg = PrunedCfg(self.cfg, removed) if removed else self.cfg
+        # values that another dominating guard shows to be non-negative (`if b < 0 {..} else if b <= MAX {site}`)
+        nonneg_all = set()
+        for (gb, dest, opn, le, re_, cty) in self.gs:
+            if (dest is not None and dest == cond_local and gb == site_bb) or \
+                    not (gb == site_bb or cfg.dominates(gb, site_bb)):
+                continue
+            side = edge_side(self.cx, self.fn, cfg, gb, dest, site_bb)
+            if side is None:
+                continue
+            for k_e, other, is_lhs in ((le, re_, True), (re_, le, False)):
+                c = _const_bound(other)
+                if c is not None and lower_nonneg(opn, side, c, is_lhs):
+                    nonneg_all.add(strip_phi(k_e))
         for (gb, dest, opn, le, re_, cty) in self.gs:
             if dest is not None and dest == cond_local and gb == site_bb:
                 continue
@@ -792,7 +805,7 @@ class FnBounds:
                 if lower_nonneg(opn, side, c, is_lhs):
                     nonneg_keys.add(strip_phi(k_e))
                 ub = upper_from_guard(opn, side, c, is_lhs)
-                if ub is None or (cty not in UNSIGNED and not nonneg(k_e)):
+                if ub is None or (cty not in UNSIGNED and not nonneg(k_e) and strip_phi(k_e) not in nonneg_all):
                     continue      # an upper bound of a signed value says nothing about its magnitude
                 k = strip_phi(k_e)
                 expr_ub[k] = min(expr_ub.get(k, INF), ub)
